@@ -369,8 +369,14 @@ func (ex *Exec) specBinary(x EBinary, env *SpecEnv) Val {
 		if ta.Sort == SStr {
 			return Scalar{ex.strConcat(ta, tb), ty}
 		}
+		if ta.Sort == SInt && tb.Sort == SInt {
+			return Scalar{Add(ta, tb), ty}
+		}
 		return Scalar{App(ta.Sort, "+", ta, tb), ty}
 	case "-":
+		if ta.Sort == SInt && tb.Sort == SInt {
+			return Scalar{Sub(ta, tb), ty}
+		}
 		return Scalar{App(ta.Sort, "-", ta, tb), ty}
 	case "*":
 		if ta.Sort == SInt {
